@@ -51,6 +51,7 @@ func c16Proxy(sc *c16kit.Scenario, env *c16kit.Env) *c16kit.SUT {
 		NamespaceEvicted: limiter.NamespaceEvicted,
 		TotalEvicted:     func() int { return int(limiter.TotalEvicted()) },
 		CountersInDryRun: true,
+		Reset:            func() { f.Evictor().(*evictorProxy).Reset() },
 	}
 }
 
